@@ -969,8 +969,8 @@ const DEVIATIONS: &str = "Deviations from DESIGN.md C12: (1) finalize and revert
 
 fn parse_key(s: &str) -> Option<Key> {
     // "(0, 1, 2)"
-    let i = s.find('(')?;
-    let j = s[i..].find(')')? + i;
+    let j = s.find(')')?;
+    let i = s[..j].rfind('(')?;
     let v: Vec<u8> = s[i + 1..j].split(',').filter_map(|x| x.trim().parse().ok()).collect();
     if v.len() == 3 {
         Some((v[0], v[1], v[2]))
@@ -1036,8 +1036,9 @@ fn replay(ctx: Ctx) -> ! {
             continue;
         }
         let op = parse_op(s).unwrap_or_else(|| mc_core::machinery_error(&format!("cannot parse op {s}")));
-        match mc_core::catch(|| m.step(&mut st, &op)) {
-            Ok(Ok(class)) => println!("step {i}: {op:?} -> {class}"),
+        // the look-ahead copies run when the fingerprint is taken
+        match mc_core::catch(|| m.step(&mut st, &op).map(|c| (c, m.fingerprint(&st)))) {
+            Ok(Ok((class, _))) => println!("step {i}: {op:?} -> {class}"),
             Ok(Err((k, w))) => {
                 println!("step {i}: {op:?} -> VIOLATION {k}: {w}");
                 ctx.violation(k, w, case.clone());
